@@ -258,11 +258,63 @@ pub fn run_scenario(sc: &Scenario, r: &mut StdRng, tr: &mut Tracer) -> Result<()
   let ids = &IDS[..sc.n_ids.min(IDS.len())];
   let multi_ok = sc.storage != "memory";
   let total = sc.ops.as_ref().map(|o| o.len()).unwrap_or(sc.n_calls);
+  // forced continuation of a macro (e.g. "wipe": delete every id, commit, compact - the index
+  // then holds several segments without a single live document)
+  let mut forced: std::collections::VecDeque<Op> = std::collections::VecDeque::new();
+  // "sleeper": a second handle commits once early and then stays idle (keeping its live-document
+  // cache and generation tag) while the other handles commit, wipe and compact; late in the
+  // history it upserts / deletes and commits again.
+  const SLEEPER: usize = 9;
+  let sleeper = sc.ops.is_none() && multi_ok && sc.max_handles > 1 && chance(r, 1, 3);
+  if sleeper {
+    forced.push_back(Op::NewWriter(SLEEPER));
+    forced.push_back(Op::Add(SLEEPER, ids[0].to_string()));
+    forced.push_back(Op::Commit(SLEEPER));
+  }
+  let wake_at = total * 3 / 5;
+  let mut woke = false;
+  let mut sleeper_gen: u32 = 0;
   for step in 0..total {
+    let asleep = sleeper && step < wake_at;
+    if sleeper && !woke && step >= wake_at && forced.is_empty() && handles.contains_key(&SLEEPER) {
+      woke = true;
+      forced.push_back(Op::Add(SLEEPER, pick(r, ids).to_string()));
+      forced.push_back(Op::Delete(SLEEPER, vec![pick(r, ids).to_string()]));
+      forced.push_back(Op::Commit(SLEEPER));
+    }
     let op = if let Some(ops) = &sc.ops {
       ops[step].clone()
+    } else if let Some(f) = forced.pop_front() {
+      f
+    } else if !handles.is_empty() && step + 4 < total && chance(r, 1, if sleeper { 10 } else { 25 }) {
+      let h = *handles.keys().next().unwrap();
+      forced.push_back(Op::Commit(h));
+      forced.push_back(Op::Compact);
+      if sleeper && !woke && h != SLEEPER && handles.contains_key(&SLEEPER) && chance(r, 1, 2) {
+        // after the wipe, let the active handle write exactly as many segments as the sleeper's
+        // generation tag counts, then wake the sleeper: its tag then equals the manifest's
+        // highest generation although it has seen none of those segments
+        let m = idx.manifest();
+        let tag = sleeper_gen.max(1) as usize;
+        let _ = m;
+        for i in 0..tag {
+          forced.push_back(Op::Add(h, ids[i % ids.len()].to_string()));
+          forced.push_back(Op::Commit(h));
+        }
+        woke = true;
+        forced.push_back(Op::Add(SLEEPER, ids[0].to_string()));
+        forced.push_back(Op::Delete(SLEEPER, vec![ids[ids.len() - 1].to_string()]));
+        forced.push_back(Op::Commit(SLEEPER));
+      }
+      Op::Delete(h, ids.iter().map(|s| s.to_string()).collect())
     } else {
-      random_op(r, &handles, ids, sc.max_handles, multi_ok, step + 1 == total && sc.end_compact)
+      match random_op(r, &handles, ids, sc.max_handles, multi_ok, step + 1 == total && sc.end_compact,
+                      if asleep { Some(SLEEPER) } else { None }) {
+        // a reopen would drop the sleeping handle
+        Op::Reopen if sleeper => Op::Compact,
+        Op::NewWriter(h) if sleeper && h == SLEEPER => Op::Compact,
+        other => other,
+      }
     };
     match op {
       Op::NewWriter(h) => {
@@ -302,6 +354,9 @@ pub fn run_scenario(sc: &Scenario, r: &mut StdRng, tr: &mut Tracer) -> Result<()
         if let Some(w) = handles.get_mut(&h) {
           let res = w.commit();
           let m = idx.manifest();
+          if h == SLEEPER && sleeper_gen == 0 {
+            sleeper_gen = m.segments.iter().map(|s| s.generation).max().unwrap_or(0);
+          }
           tr.emit(json!({
             "ev": "commit", "h": h, "ok": res.is_ok(), "obs": obs_json(&idx),
             "nseg": m.segments.len(),
@@ -360,6 +415,7 @@ fn random_op(
   max_handles: usize,
   multi_ok: bool,
   force_compact: bool,
+  exclude: Option<usize>,
 ) -> Op {
   if force_compact {
     return Op::Compact;
@@ -367,7 +423,10 @@ fn random_op(
   if handles.is_empty() {
     return Op::NewWriter(1);
   }
-  let hs: Vec<usize> = handles.keys().copied().collect();
+  let hs: Vec<usize> = handles.keys().copied().filter(|h| Some(*h) != exclude).collect();
+  if hs.is_empty() {
+    return Op::NewWriter(1);
+  }
   let h = *pick(r, &hs);
   let roll = r.gen_range(0..100);
   match roll {
